@@ -194,7 +194,7 @@ def check_budget(ck, cm: CacheModel):
     R = "C06.R2"
     ck.rule(R, "budget: the insertion is dominated by the oversize guard and by an evict-until-fits loop whose "
                "negated test implies counter + size <= budget (or the queue is empty), with no write to "
-               "counter/size/budget in between", 4)
+               "counter/size/budget in between", 3)
     fa = FA(ck, cm.insert)
     ins = [s for s in fa.stmts(ast.Assign) if any(isinstance(t, ast.Subscript) and self_attr(t.value, cm.map) for t in s.targets)]
     ins = fa.one(ins, "insertion into the resident map")
@@ -242,7 +242,8 @@ def check_budget(ck, cm: CacheModel):
         wst = fa.pm.get(cfg.node(loop_node).ast)
         # the other conjunct may only be a queue-non-empty test
         others = [a for a in A.conj_atoms(cfg.node(loop_node).ast) if _cmp_gt_budget(a, cm, size) is None]
-        ok_other = all(("len(self.%s)" % cm.queue) in A.norm(a) or A.norm(a) == "self.%s" % cm.queue for a in others)
+        q = "self.%s" % cm.queue
+        ok_other = all(A.norm(a) in ("len(%s) > 0" % q, "len(%s)" % q, q, "len(%s) != 0" % q, "len(%s) >= 1" % q, "0 < len(%s)" % q) for a in others)
         ck.ob(R, fa.key(wst, "loop-test"), ok_other,
               "loop stops only when it fits or nothing is left to evict" if ok_other else
               "loop has an extra exit condition (%s): it may stop before the new entry fits" % [A.norm(a) for a in others],
